@@ -3,7 +3,7 @@ import json
 import os
 import vlib
 
-PROPS = ['Rangers.Props.C20']
+PROPS = ['Rangers.Props.C20', 'Rangers.Props.C20Facts']
 DRIVERS = ['C20']
 KNOWN_KEYS = ('stale-iterator-in-block', 'id-hash-collision', 'refund-lost-second-account')
 META = dict(
@@ -15,6 +15,15 @@ META = dict(
     rule='distinct op lines sent to both implementation and model whose answer is not bad-op',
     explanation='',
 )
+
+
+def gen(ctx):
+    """T-gen: regenerate Generated/C20Facts.lean from the working tree (constants, check order, bookkeeping facts)."""
+    rc, so, se = vlib.go_run_gen(ctx, 'c20facts', [])
+    if rc != 0 or 'namespace Rangers.Generated.C20' not in so:
+        return dict(ok=False, error='c20facts failed: ' + (se or so)[-800:])
+    changed = vlib.write_if_changed(os.path.join(vlib.LEAN, 'Rangers', 'Generated', 'C20Facts.lean'), so)
+    return dict(ok=True, changed=changed, facts=so.count('\ndef '))
 
 
 def correspond(ctx):
